@@ -9,6 +9,7 @@ CONSTANTS
   Reactions <- NoReactions
   HandlerReconnect = FALSE
   SrvMayStall = FALSE
+  HEAtomic = TRUE
   ShutdownBoth = TRUE
   Fixed = TRUE
   Emit = TRUE
